@@ -15,7 +15,7 @@ type c01 struct{ base }
 
 func init() {
 	runner.Register(&c01{base{id: "C01", level: "exploration",
-		rule: "exhaustive: every sequence of <=3 (thorough <=5) ops over 2 keys x 8 op templates {put full, put small, update SET, update REMOVE, update ADD, delete, delete ALL_OLD, get}, hash-only and hash+range schemas, both adapters; seeded: histories of 40-80 ops over 3-6 hostile keys. After EVERY step the complete observable state (GetItem of every key used so far, base Scan as a set, DescribeTable.ItemCount) is compared with the model map. non-trivial = history contains an overwrite, a delete-then-re-put or an update-created item and touches >=2 keys; distinct by (schema, adapter, op-kind sequence, key-index sequence).",
+		rule: "exhaustive: every sequence of <=4 (thorough <=5) ops over 2 keys x 8 op templates {put full, put small, update SET, update REMOVE, update ADD, delete, delete ALL_OLD, get}, hash-only and hash+range schemas, both adapters; seeded: histories of 40-80 ops over 3-6 hostile keys. After EVERY step the complete observable state (GetItem of every key used so far, base Scan as a set, DescribeTable.ItemCount) is compared with the model map. non-trivial = history contains an overwrite, a delete-then-re-put or an update-created item and touches >=2 keys; distinct by (schema, adapter, op-kind sequence, key-index sequence).",
 		assumptions: commonAssumptions}})
 }
 
@@ -25,14 +25,14 @@ func c01MaxLen(tier string) int {
 	if tier == "thorough" {
 		return 5
 	}
-	return 3
+	return 4
 }
 
 func c01Seeded(tier string) int {
 	if tier == "thorough" {
-		return 4000
+		return 20000
 	}
-	return 200
+	return 1000
 }
 
 const c01Block = 64
